@@ -339,7 +339,20 @@ func symMatches(sym, base byte) bool {
 
 // patternOccurs: the pattern occurs somewhere in s with at most e differences - substitutions
 // only, or substitutions, insertions and deletions (edit distance to a substring of s).
-func patternOccurs(pat, s string, e int, indels bool) bool {
+func patternOccurs(rawpat, s string, e int, indels bool) bool {
+	// a '#' after a symbol: no difference is tolerated at that position
+	var pat []byte
+	var strict []bool
+	for i := 0; i < len(rawpat); i++ {
+		if rawpat[i] == '#' {
+			if len(strict) > 0 {
+				strict[len(strict)-1] = true
+			}
+			continue
+		}
+		pat = append(pat, rawpat[i])
+		strict = append(strict, false)
+	}
 	m, n := len(pat), len(s)
 	if !indels {
 		for i := 0; i+m <= n; i++ {
@@ -347,6 +360,9 @@ func patternOccurs(pat, s string, e int, indels bool) bool {
 			for j := 0; j < m && d <= e; j++ {
 				if !symMatches(pat[j], s[i+j]) {
 					d++
+					if strict[j] {
+						d = e + 1
+					}
 				}
 			}
 			if d <= e {
@@ -442,10 +458,28 @@ func drawApprox(t *simrt.Tape, recs []Rec) *approxOpt {
 			w[i] = dna[(strings.IndexByte(dna, r.Seq[from+i])+1+t.Choose(3))%4]
 		}
 	}
-	pat := string(w)
-	if t.Choose(2) == 1 {
-		pat = modelRC(pat) // c07Comp is the IUPAC complement: the occurrence is then on the other strand
+	// positions where no difference is tolerated ('#' after the symbol): substitutions only
+	strict := make([]bool, len(w))
+	if a.Err > 0 && !a.Indels && t.Choose(2) == 1 {
+		for k := 1 + t.Choose(2); k > 0; k-- {
+			strict[t.Choose(len(w))] = true
+		}
 	}
+	if t.Choose(2) == 1 {
+		// written for the other strand (c07Comp is the IUPAC complement)
+		w = []byte(modelRC(string(w)))
+		for x, y := 0, len(strict)-1; x < y; x, y = x+1, y-1 {
+			strict[x], strict[y] = strict[y], strict[x]
+		}
+	}
+	var pb strings.Builder
+	for i, c := range w {
+		pb.WriteByte(c)
+		if strict[i] {
+			pb.WriteByte('#')
+		}
+	}
+	pat := pb.String()
 	if t.Choose(2) == 1 {
 		pat = strings.ToUpper(pat)
 	}
